@@ -166,7 +166,7 @@ Proof.
                c_comm x = FinalReturned -> st = StartOfContinuousInterval \/ st = ReachedStepLimit \/ cret_ok c report sched st s').
   { intros x Hx Hc. inversion Hx; subst. right; right. unfold cret_ok. repeat split; intros; try discriminate; auto. }
   assert (REST: (if c_startCI s
-       then COk (StartOfContinuousInterval, set_flags s (c_comm s) (c_interp s) false None (c_tstop s), orc, [])
+       then COk (StartOfContinuousInterval, clear_saved (set_flags s (c_comm s) (c_interp s) false None (c_tstop s)), orc, [])
        else
          let tMax := qmin report sched in
          let isFake := negb (allowInterp c) && match finalT c with None => true | Some f => qlt tMax f end in
